@@ -9,7 +9,7 @@ import SC.Rules
 namespace SC
 variable {F : Type} [Num F]
 
-def lowerEq (a b : String) : Bool := a.toLower = b.toLower
+def lowerEq (a b : String) : Bool := lowerStr a = lowerStr b
 
 def Item.typeName : Item F → String
   | .number _ _ => "NUMBER" | .percent _ => "PERCENT" | .money _ _ => "MONEY" | .time _ _ => "TIME"
@@ -284,7 +284,7 @@ def tokToString : Tok F → String
   | _ => "<value>"
 
 /-- the textual key `VariableInfo::to_string` -/
-def varKey (toks : List (Tok F)) : String := " ".intercalate (toks.map fun t => (tokToString t).toLower)
+def varKey (toks : List (Tok F)) : String := " ".intercalate (toks.map fun t => lowerStr (tokToString t))
 
 /-- the variable an assignment line binds: an existing one (looked up by key) or a new one
     registered at parse time with no value yet -/
